@@ -7,6 +7,7 @@ term embedded, so nested ``.Select(lambda j: ...)`` is traced through.  ``__bool
 decision schedule, and ``behaviour`` enumerates all schedules, so and/or/not/conditionals are
 covered as a decision tree."""
 import inspect
+import re
 
 
 class ProbeError(Exception):
@@ -21,6 +22,7 @@ class _State(threading.local):
 
     def __init__(self):
         self.depth = 0
+        self.uid = 0
         self.schedule = []
         self.pos = 0
         self.trace = []
@@ -117,11 +119,18 @@ def term(x):
         _st.depth += 1
         try:
             try:
-                n = len(inspect.signature(x).parameters)
+                # one probe per positional parameter without default (a *args parameter gets one), so defaults stay observable
+                K = inspect.Parameter
+                n = sum(1 for q in inspect.signature(x).parameters.values()
+                        if (q.kind in (K.POSITIONAL_ONLY, K.POSITIONAL_OR_KEYWORD) and q.default is K.empty) or q.kind is K.VAR_POSITIONAL)
             except (TypeError, ValueError):
                 return f"<callable:{getattr(x, '__name__', '?')}>"
-            args = [P(f"$b{_st.depth}_{i}") for i in range(n)]
-            return f"\\{','.join(a.t for a in args)}.{term(x(*args))}"
+            # binders get a unique id while the term is built; canon() renames them by their nesting level in the finished term, so
+            # that alpha-equivalent results read the same wherever (and how often) an argument expression was evaluated
+            _st.uid += 1
+            uid = _st.uid
+            args = [P(f"$B{uid}_{i}") for i in range(n)]
+            return f"\x01{uid}\\{','.join(a.t for a in args)}.{term(x(*args))}\x02"
         finally:
             _st.depth -= 1
     if isinstance(x, tuple):
@@ -131,6 +140,33 @@ def term(x):
     if isinstance(x, dict):
         return "{" + ",".join(f"{term(k)}:{term(v)}" for k, v in x.items()) + "}"
     return f"<{type(x).__name__}:{x!r}>"
+
+
+_CANON = re.compile(r"\x01(\d+)\\|\x02|\$B(\d+)_(\d+)")
+
+
+def canon(s):
+    out, stack, pos = [], [], 0
+    for m in _CANON.finditer(s):
+        out.append(s[pos:m.start()])
+        pos = m.end()
+        t = m.group(0)
+        if t[0] == "\x01":
+            stack.append(m.group(1))
+            out.append("\\")
+        elif t == "\x02":
+            if stack:
+                stack.pop()
+        else:
+            uid = m.group(2)
+            for lvl in range(len(stack) - 1, -1, -1):
+                if stack[lvl] == uid:
+                    out.append(f"$b{lvl + 1}_{m.group(3)}")
+                    break
+            else:
+                out.append(f"$b?_{m.group(3)}")
+    out.append(s[pos:])
+    return "".join(out)
 
 
 def behaviour(f, nargs=None, max_paths=64):
@@ -146,15 +182,16 @@ def behaviour(f, nargs=None, max_paths=64):
         _st.pos = 0
         _st.trace = []
         _st.depth = 0
+        _st.uid = 0
         try:
-            res = term(f(*[P(f"$a{i}") for i in range(nargs)]))
+            res = canon(term(f(*[P(f"$a{i}") for i in range(nargs)])))
         except ProbeError as e:
             res = f"<probe-limit:{e}>"
         except RecursionError:
             res = "<recursion>"
         except Exception as e:
             res = f"<raises {type(e).__name__}: {str(e)[:60]}>"
-        path = tuple(_st.trace)
+        path = tuple((canon(t), d) for t, d in _st.trace)
         out.append((path, res))
         # branch on every decision taken beyond the prescribed prefix (it defaulted to True)
         for i in range(len(sched), len(path)):
